@@ -42,6 +42,7 @@ type program struct {
 	slots   int
 	keys    []string
 	workers int
+	roots   int
 	src     string
 }
 
@@ -73,9 +74,16 @@ func parseSteps(s string) []step {
 }
 
 func parse(p string) *program {
-	pr := &program{workers: 1, src: p}
-	if i := strings.Index(p, ";w="); i >= 0 {
-		fmt.Sscan(p[i+3:], &pr.workers)
+	pr := &program{workers: 1, roots: 1, src: p}
+	if i := strings.Index(p, ";"); i >= 0 {
+		for _, kv := range strings.Split(p[i+1:], ";") {
+			switch {
+			case strings.HasPrefix(kv, "w="):
+				fmt.Sscan(kv[2:], &pr.workers)
+			case strings.HasPrefix(kv, "r="):
+				fmt.Sscan(kv[2:], &pr.roots)
+			}
+		}
 		p = p[:i]
 	}
 	parts := strings.Split(p, "|")
@@ -215,7 +223,7 @@ func (r *run) exec(thread int, idx int, st step) {
 func (pr *program) body() (string, string) {
 	vrt.SetBranching(false)
 	dbh.FreshWorld()
-	in, err := dbh.Open(dbh.Spec{Roots: 1, MaxDirCount: 100, Workers: pr.workers})
+	in, err := dbh.Open(dbh.Spec{Roots: pr.roots, MaxDirCount: 100, Workers: pr.workers})
 	if err != nil {
 		return "infra: open: " + err.Error(), ""
 	}
